@@ -340,12 +340,17 @@ func (x *multiRun) do(op string) string {
 			p := gb.VerifParts()
 			ctx, cancel := context.WithCancel(context.Background())
 			var atCancel int
+			read := make(chan struct{})
 			go func() {
 				time.Sleep(time.Duration(atoi(w[2])) * time.Millisecond)
-				atCancel = p.Display.Frames
+				// read AFTER cancel(): a frame that ends between a read and the cancel would be counted as a second
+				// "further" frame although it was completed before the cancellation
 				cancel()
+				atCancel = p.Display.Frames
+				close(read)
 			}()
 			gb.Run(ctx)
+			<-read
 			extra := p.Display.Frames - atCancel
 			return fmt.Sprintf("extra-frames-le-1=%s display-cleanups=%d", b01(extra <= 1 && extra >= 0), p.Display.Cleanups)
 		}
